@@ -8,14 +8,16 @@
    -- the model's rendering of a use-after-free.
 
    Lifetimes as the harness arranges them: every window has its creation reference and one
-   reference held by the harness; the routing code holds further references ([i_holds]: one
-   per active _handle_key/_handle_mouse frame, and -- in the repaired code -- one per entry
-   of a children snapshot, one for a window returned by _handle_mouse, one for the drag
-   source).  "Destroy" drops the two base references: the window is freed at once unless it
-   is held, and then when the last hold is released.
+   reference held by the harness; the routing code holds one more per active _handle_key /
+   _handle_mouse frame ([i_holds]).  "Destroy" drops the two base references: the window is
+   freed at once unless a frame holds it, and then when that frame exits.
 
    [d_route_unsafe] selects the pinned iteration (a `next` pointer saved before each call)
-   instead of the repaired one (a snapshot of the children). *)
+   instead of the repaired one: a COPY of the child list (plain pointers, no references),
+   each entry checked -- by address only -- to be still a child before it is touched.
+   [d_drag_stale] selects the pinned drag bookkeeping (the source pointer is kept whatever
+   happens to the window) instead of the repaired one (a source that is not in the tree is
+   not remembered, and closing a window makes the root forget a source at or below it). *)
 From Coq Require Import ZArith List Bool.
 From Tickit Require Import RectDefs WinRectSet WinDefs.
 Import ListNotations.
@@ -220,7 +222,7 @@ Fixpoint handle_key (fuel : nat) (cfg : defects) (claims : Z -> Z) (s : istate) 
                end
              end) f s3 (first_kid s3 w)
         else
-          (* a snapshot of the children, each with a reference *)
+          (* a copy of the child list; an entry that is no longer a child is skipped unread *)
           let snap := kid_ids s3 w in
           let '(s', r) :=
             (fix loop (s : istate) (l : list Z) : istate * bool :=
@@ -232,8 +234,8 @@ Fixpoint handle_key (fuel : nat) (cfg : defects) (claims : Z -> Z) (s : istate) 
                  else
                    let '(s', r) := handle_key f cfg claims s c in
                    if r then (s', true) else loop s' rest
-               end) (hold_all s3 snap) snap in
-          (release_all s' snap, r) in
+               end) s3 snap in
+          (s', r) in
       (release s4 w, r4)
     end
   end.
@@ -298,15 +300,13 @@ Fixpoint handle_mouse (fuel : nat) (cfg : defects) (claims : Z -> Z) (s : istate
                        match r with Some x => (s', Some x) | None => loop s' rest end
                      end
                    end
-               end) (hold_all s snap) snap in
-          (release_all s' snap, r) in
+               end) s snap in
+          (s', r) in
       match r1 with
       | Some x => (release s1 w, Some x)
       | None =>
         let '(s2, r2) := run_handler cfg claims s1 w (IMouse w ty btn line col) in
-        if r2 then
-          (release (if d_drag_stale cfg then s2 else hold s2 w) w, Some w)
-        else (release s2 w, None)
+        (release s2 w, if r2 then Some w else None)
       end
     end
   end.
@@ -316,13 +316,6 @@ Definition ifuel : nat := 64.
 (* on_term_key *)
 Definition term_key (cfg : defects) (claims : Z -> Z) (s : istate) : istate :=
   fst (handle_key ifuel cfg claims s (t_id (r_tree (i_root s)))).
-
-(* dropping the reference that came with a result of _handle_mouse *)
-Definition drop_ref (cfg : defects) (s : istate) (r : option Z) : istate :=
-  match r with
-  | Some x => if d_drag_stale cfg then s else release s x
-  | None => s
-  end.
 
 (* on_term_mouse; ty in 1..4 *)
 Definition term_mouse (cfg : defects) (claims : Z -> Z) (s : istate) (ty btn line col : Z) : istate :=
@@ -335,45 +328,32 @@ Definition term_mouse (cfg : defects) (claims : Z -> Z) (s : istate) (ty btn lin
     | Some src =>
       match (if mem src (i_freed s) then None else f_abs_origin (i_root s) src) with
       | None => i_faulty s
-      | Some o =>
-        let '(s', r) := handle_mouse ifuel cfg claims s src ty' btn (line - fst o) (col - snd o) in
-        drop_ref cfg s' r
+      | Some o => fst (handle_mouse ifuel cfg claims s src ty' btn (line - fst o) (col - snd o))
       end
     end in
   let s1 :=
     if ty =? 1 then i_set_root s (set_drag st (r_dragging st) btn line col (r_dsrc st))
     else if (ty =? 2) && negb (r_dragging st) then
-      (* the reference of the previous source goes, the one that comes with the result stays *)
       let '(s', src) := handle_mouse ifuel cfg claims s rootid 5 (r_lbtn st) (r_lline st) (r_lcol st) in
-      (* _set_drag_source: no reference for the root itself; the old one goes *)
-      let s' := match src with
-                | Some x => if negb (d_drag_stale cfg) && (x =? rootid) then release s' x else s'
-                | None => s'
-                end in
-      let s' := match r_dsrc (i_root s') with
-                | Some old => if d_drag_stale cfg || (old =? rootid) then s' else release s' old
-                | None => s'
-                end in
       let st' := i_root s' in
-      i_set_root s' (set_drag st' true (r_lbtn st') (r_lline st') (r_lcol st') src)
+      (* the handler may have closed or destroyed the window it ran on: only a window that is
+         (by address) still in the tree is remembered *)
+      let src' := match src with
+                  | Some x => if d_drag_stale cfg then Some x
+                              else match t_find x (r_tree st') with Some _ => Some x | None => None end
+                  | None => None
+                  end in
+      i_set_root s' (set_drag st' true (r_lbtn st') (r_lline st') (r_lcol st') src')
     else if (ty =? 3) && r_dragging st then
-      let '(s', r) := handle_mouse ifuel cfg claims s rootid 7 btn line col in
-      let s' := drop_ref cfg s' r in
+      let '(s', _) := handle_mouse ifuel cfg claims s rootid 7 btn line col in
       let s'' := to_source s' 8 in
       let st'' := i_root s'' in
-      if d_drag_stale cfg then
-        i_set_root s'' (set_drag st'' false (r_lbtn st'') (r_lline st'') (r_lcol st'') (r_dsrc st''))
-      else
-        let s3 := match r_dsrc st'' with Some src => if src =? rootid then s'' else release s'' src | None => s'' end in
-        let st3 := i_root s3 in
-        i_set_root s3 (set_drag st3 false (r_lbtn st3) (r_lline st3) (r_lcol st3) None)
+      i_set_root s'' (set_drag st'' false (r_lbtn st'') (r_lline st'') (r_lcol st'') (r_dsrc st''))
     else s in
   let '(s2, handled) := handle_mouse ifuel cfg claims s1 rootid ty btn line col in
-  let s3 :=
-    if (ty =? 2) &&
-       match r_dsrc (i_root s2) with
-       | Some src => negb (opt_is handled (Some src))
-       | None => false
-       end
-    then to_source s2 6 else s2 in
-  drop_ref cfg s3 handled.
+  if (ty =? 2) &&
+     match r_dsrc (i_root s2) with
+     | Some src => negb (opt_is handled (Some src))
+     | None => false
+     end
+  then to_source s2 6 else s2.
